@@ -541,6 +541,24 @@ CSUB_NOTE = ("The concurrent theorems are about a small-step Coq model of ONE su
              "runtime) are covered by the theorems only; the refutation theorem for the pinned code was replayed on the "
              "implementation and failed there exactly as predicted (and no longer fails after fix fd73b54).")
 
+def eng_modify_batches(ctx):
+    cases = gen.modify_batch_cases()
+    if not ctx.thorough:
+        cases = cases[::2]
+    return ctx.seq("modify-batches", cases, relevant=DATA_OPS, triggers={"SS"}, monitor=M.mon_exclusive)
+
+
+def eng_big_chain(ctx):
+    cases = gen.big_chain_cases()
+    return ctx.seq("big-chain", cases, triggers={"JOIN"}, monitor=M.mon_wait, always_monitor=True, model_free=True)
+
+
+def eng_pull_limit(ctx):
+    cases = gen.pull_limit_cases()
+    return ctx.seq("pull-limit", cases, relevant={"JOIN", "STATS"}, triggers={"JOIN"}, monitor=M.mon_pull_limit,
+                   always_monitor=True)
+
+
 def eng_id_lists(mon, kinds):
     def eng(ctx):
         cases = [c for c in gen.id_list_cases() if c[0].split("-")[1] in kinds]
@@ -568,7 +586,7 @@ reg("C02", [eng_id_lists(M.mon_ack_final, ("ack", "sack")), eng_data_enum(M.mon_
 reg("C03", [eng_data_random(M.mon_exclusive, {"PULL"}, tag="data-random"),
             eng_data_random(M.mon_exclusive, {"SR", "PULL"}, streams=True, tag="data-stream-random"),
             eng_data_enum(M.mon_exclusive, {"PULL"}),
-            eng_deadline_probes((None,), M.mon_exclusive, "lease-probes")],
+            eng_deadline_probes((None,), M.mon_exclusive, "lease-probes"), eng_modify_batches],
     rule="random scripts with pulls of several sizes, nacks, expiry and streams on one subscription; exhaustive short "
          "sequences; lease-probes: two leases handed out 40/70 ms apart at every phase of the 100 ms deadline grid, a "
          "third consumer pulling 1 ms before, at and 1 ms after each deadline. non-trivial = contains a Pull/stream response with at least one message",
@@ -596,7 +614,7 @@ reg("C04", [eng_deadline_pure, eng_deadline_probes((None,), M.mon_deadline, "dea
 
 reg("C05", [eng_id_lists(M.mon_deadline, ("nack", "mod")), eng_deadline_pure, eng_deadline_probes((0, 1, 5, 30, 599, 600, 700, -1), M.mon_deadline, "modify-probes"),
             eng_data_random(M.mon_deadline, {"MOD"}, streams=True, tag="data-stream-random"),
-            eng_data_enum(M.mon_deadline, {"MOD"})],
+            eng_data_enum(M.mon_deadline, {"MOD"}), eng_modify_batches],
     rule="DX: parse of every boundary i32 and random values; modify-probes: a lease modified with N in "
          "{0,1,5,30,599,600,700,-1} three seconds after hand-out, probes around the new, the old and the neighbour's "
          "deadline; random scripts with unary and streaming modifications mixing live, stale, unknown and malformed ids. "
@@ -653,7 +671,7 @@ reg("C10", [eng_control_random(M.mon_namespace, {"CT", "CS"}, always=True), eng_
 
 reg("C11", [eng_control_random(M.mon_namespace, {"DT", "DS"}, always=True),
             eng_data_random(M.mon_namespace, {"DS", "DT"}, relevant=CTL_OPS | DATA_OPS, tag="data-random", always=True),
-            lambda ctx: eng_racestress(ctx)],
+            lambda ctx: eng_racestress(ctx), lambda ctx: eng_abandon(ctx)],
     rule="random scripts deleting and re-creating topics and subscriptions with publishes and pulls in between; "
          "ListTopicSubscriptions / GetSubscription / STATS after deletions. non-trivial = a successful delete",
     monitor=M.mon_namespace, title="Deletion keeps topics and subscriptions consistent with each other", design_ref="7/C11",
@@ -795,6 +813,10 @@ def gen_fc_random(rng, i):
                          for _ in range(nm)]
     rng.shuffle(th)
     sched = [str(rng.randrange(0, len(th) + (1 if rng.random() < 0.1 else 0))) for _ in range(rng.randrange(20, 80))]
+    if i % 2 == 0:
+        # let everything run out afterwards (round robin): every inc / dec completes, every waiter that can return
+        # does, so the final state is conclusive for the lost-wake-up reading
+        sched += [str(k) for _ in range(8) for k in range(len(th))]
     return ("fr%d" % i, ["CFG %d %d %d %d" % (maxm, maxb, im, ib)] + th + ["SCHED " + " ".join(sched)])
 
 
@@ -1016,7 +1038,8 @@ def eng_woken_dropped(ctx):
     return ctx.seq("woken-dropped", cases, triggers={"XP"}, monitor=M.mon_wait, always_monitor=True, model_free=True)
 
 
-reg("C06", [eng_wait_enum, eng_wait_random(M.mon_wait, {"SR", "JOIN"}), eng_cancel_woken, eng_woken_dropped, eng_cs],
+reg("C06", [eng_wait_enum, eng_wait_random(M.mon_wait, {"SR", "JOIN"}), eng_cancel_woken, eng_woken_dropped, eng_cs,
+            eng_big_chain],
     rule="wait-enum: every combination of up to three waiting consumers (stream limit 1 / stream limit 10 / blocked "
          "Pull limit 1 / blocked Pull limit 5) x five sequences of availability events (publish 1/3/0, nack, expiry, "
          "ack), every consumer and STATS observed after each event; wait-random: random scripts with several "
@@ -1181,7 +1204,7 @@ reg("C16", [eng_abandon, eng_burst, lambda ctx: eng_racestress(ctx), eng_cs],
                "exhibit on the implementation (stale attachment when a Delete overtakes the attach of a just-created "
                "subscription, DESIGN 7/C16).")
 
-reg("C07", [eng_burst, eng_abandon],
+reg("C07", [eng_burst, eng_abandon, eng_pull_limit],
     rule="burst: 17-70 calls (Get/Pull/Ack/List, one or two DeleteSubscription, one or two Publish, sometimes DeleteTopic) "
          "started without letting the runtime settle, seeded select!/scheduling order; after settling every call must "
          "have an answer and the server must still answer Get/Publish/Pull/List (mon_no_hang on every case; the harness "
@@ -1261,10 +1284,11 @@ def eng_push(ctx):
     cases = gen.push_cases(ctx.seed, ctx.n(160, 1500))
     out = ctx.seq("push", cases, relevant={"ROUND", "LOOP", "REG", "STATS", "PULL", "CS", "DS", "PUB"},
                   triggers={"ROUND"}, monitor=M.mon_push)
-    if out or not ctx.thorough:
+    if out:
         return out
-    # endpoints that never answer: each such pass costs 20 s of real time (16 cases in parallel)
-    cases = gen.push_cases(ctx.seed + 1, 32, with_hang=True, prefix="ph")
+    # endpoints that never answer: each such pass costs 20 s of real time (the cases run in parallel)
+    cases = gen.push_hang_cases() if not ctx.thorough else \
+        gen.push_hang_cases() + gen.push_cases(ctx.seed + 1, 32, with_hang=True, prefix="ph")
     return ctx.seq("push-hang", cases, relevant={"ROUND", "REG", "STATS", "PULL"}, triggers={"ROUND"}, monitor=M.mon_push)
 
 
